@@ -47,7 +47,7 @@ check(
 
 check(
     "C15", "hist",
-    "Seeded search over histories of solve / Save_Iter / folder change / Get_results / Set_Iter / Result(iter=i) / mesh replacement / time-scheme switch / Save / Load_Simu / Mesh.Save+Load_Mesh / scribbling on returned arrays, for Elastic (static and dynamic), Thermal, PhaseField, InElastic, HyperElastic, WeakForms and Beam (frame with a connection; a second mesh with moved interior nodes; internal forces fx, fy among the recorded results) simulations with 1-3 meshes in one history (including meshes with nodes that no element uses, meshes with two main-dimension groups, TRI3 + QUAD4, whose group order fixes the element numbering; element-wise results are part of the snapshots), on a simulated disk. Oracle: deep-copied snapshots taken when each iteration was saved (fields, internal variables, mesh digest, named results); after every operation every stored iteration is re-read and compared exactly. A separate fault batch injects EIO/ENOSPC/EACCES on open/write/read and process kills (clean and torn) inside Save_Iter/Save/Get_results/Set_Iter/Load_Simu with the narrowed oracle 'may fail, never wrong data', including restart from what the disk holds.",
+    "Seeded search over histories of solve / Save_Iter / folder change / Get_results / Set_Iter / Result(iter=i) / mesh replacement / time-scheme switch / Save / Load_Simu / Mesh.Save+Load_Mesh / scribbling on returned arrays, Save_Iter called bare or with the caller's own dict (one object for every call, rewritten after it), for Elastic (static and dynamic), Thermal, PhaseField, InElastic, HyperElastic, WeakForms and Beam (frame with a connection; a second mesh with moved interior nodes; internal forces fx, fy among the recorded results) simulations with 1-3 meshes in one history (including meshes with nodes that no element uses, meshes with two main-dimension groups, TRI3 + QUAD4, whose group order fixes the element numbering; element-wise results are part of the snapshots), on a simulated disk. Oracle: deep-copied snapshots taken when each iteration was saved (fields, internal variables, mesh digest, named results); after every operation every stored iteration is re-read and compared exactly. A separate fault batch injects EIO/ENOSPC/EACCES on open/write/read and process kills (clean and torn) inside Save_Iter/Save/Get_results/Set_Iter/Load_Simu with the narrowed oracle 'may fail, never wrong data', including restart from what the disk holds.",
     "Trusted: the snapshot recorder (deep copies through public getters plus the two name-mangled state attributes the property's anchors name: InElastic committed variables, PhaseField history field), pickle, the tmpfs under the simulated disk. Process kill semantics: bytes accepted by write() survive (no power-loss model). Velocity/acceleration are compared after Set_Iter only when the scheme active at restore time stores them. Two open findings are steered around in the random batch and reproduced from their own replay files (known_findings.json).",
     "deterministic simulation with disk-fault and crash injection: seeded op/fault sequences vs snapshot reference model, ddmin-minimised replay files",
     "DESIGN.md section 5, C15",
@@ -55,7 +55,7 @@ check(
 
 check(
     "C03", "asm",
-    "Seeded search over sequences of repeated assemblies interleaved with everything that moves the key of the cached element-to-CSR map (new element values, absent/present slots, real/complex values, Lagrange conditions and Dirichlet dofs changing Ndof, Bc_Init, mesh replacement, node renumbering, coordinate changes, Need_Update, Save_Iter/Set_Iter) on a harness-defined _Simu subclass (bulk + boundary + point groups, boundary groups either the mesh's own or user-built copies with the elements in another order, 1-2 problem types with different dofs per node in one object) and on Thermal / Elastic / PhaseField simulations. After every assembly K, C, M, F are compared (1e-12) with a dense loop summation of the very element arrays Construct_local_matrix_system returned for that call; shape, canonical CSR and complex dtype are checked; renumbering must give P K P^T. A fault batch makes the k-th sparse construction of an assembly fail with MemoryError (assembly interrupted after some slots were built and maps cached): the repeated assembly must be exact and an interrupted Get_K_C_M_F must still ask for an update. Probes count reused vs rebuilt maps.",
+    "Seeded search over sequences of repeated assemblies interleaved with everything that moves the key of the cached element-to-CSR map (new element values, absent/present slots, real/complex values, Lagrange conditions and Dirichlet dofs changing Ndof, Bc_Init, mesh replacement, node renumbering, coordinate changes, Need_Update, Save_Iter/Set_Iter) on a harness-defined _Simu subclass (bulk + boundary + point groups, boundary groups either the mesh's own or user-built copies with the elements in another order, 1-2 problem types with different dofs per node in one object) and on Thermal / Elastic / PhaseField simulations. After every assembly K, C, M, F are compared (1e-12) with a dense loop summation of the very element arrays Construct_local_matrix_system returned for that call; shape, canonical CSR and complex dtype are checked; renumbering must give P K P^T. A fault batch makes the k-th sparse construction of an assembly fail with MemoryError (assembly interrupted after some slots were built and maps cached): the repeated assembly must be exact and an interrupted Get_K_C_M_F must still ask for an update. Probes count reused vs rebuilt maps. Size is covered by one more actor (0.06 % of the quick runs, 0.2 % of the thorough ones, plus a fixed scenario replay run by every check): a Thermal simulation on a structured QUAD4 grid with 46 656 - 53 361 dofs (row * Ndof + col beyond 32 bits), assembled twice, compared with a sparse COO scatter-add of the element arrays.",
     "Trusted: the dense loop reference (simkit.refs.ref_scatter_*), the wrapper that records the element arrays, NumPy. Staleness of Get_K_C_M_F() is not decided here (C14). The clause 'the solution is permuted by renumbering' is covered only through P K P^T (the solve itself is C04).",
     "deterministic simulation: seeded assembly/cache-key histories vs dense scatter-add reference, ddmin-minimised replay files",
     "DESIGN.md section 5, C03",
@@ -84,22 +84,22 @@ check(
 )
 check(
     "C17", "pf",
-    "PARTIAL CLAIM - the irreversibility clauses, and the split clauses on the states the histories visit. Seeded search over load / unload / reverse / shear / zero-load / rigid-translation / homogeneous-strain histories (prescribed u = A x with repeated principal strains: equibiaxial, hydrostatic, confined and uniaxial patterns, whose computed principal values coincide exactly or up to round-off) of the staggered phase-field solver for all 14 splits x {AT1, AT2} x {History, HistoryDamage, BoundConstrain} on isotropic, transversely isotropic and anisotropic materials (2D) and isotropic 3D bodies (hexahedra, tetrahedra, prisms), including rigid translations (strains at round-off level: the repeated-eigenvalue branches of the spectral decomposition), with varying tolConv / maxIter / convergence option, Save_Iter, Set_Iter(i, resetAll) rollback and injected back-end failures inside the staggered loop. At every saved step: the stored history energy never decreases pointwise; for the two damage-based solvers the saved nodal damage never decreases; BoundConstrain keeps the damage within [previous damage, 1] (the bounded least-squares back end of C04); an all-zero load history leaves the damage at zero. On every visited strain state: sigma+ + sigma- = C:eps, psi+ + psi- = 1/2 eps:C:eps, all finite; on every visited strain and stress tensor the spectral projector P+ applied to the tensor equals the positive part given by numpy.linalg.eigh (1e-7 relative) and P+ + P- is the identity.",
+    "PARTIAL CLAIM - the irreversibility clauses, and the split clauses on the states the histories visit. Seeded search over load / unload / reverse / shear / zero-load / rigid-translation / homogeneous-strain histories (prescribed u = A x with repeated principal strains: equibiaxial, hydrostatic, confined and uniaxial patterns, whose computed principal values coincide exactly or up to round-off) (optionally a second degenerate pattern on the other half of the body, so that one call of the decomposition sees several degenerate kinds and generic points) of the staggered phase-field solver for all 14 splits x {AT1, AT2} x {History, HistoryDamage, BoundConstrain} on isotropic, transversely isotropic and anisotropic materials (2D) and isotropic 3D bodies (hexahedra, tetrahedra, prisms), including rigid translations (strains at round-off level: the repeated-eigenvalue branches of the spectral decomposition), with varying tolConv / maxIter / convergence option, Save_Iter, Set_Iter(i, resetAll) rollback and injected back-end failures inside the staggered loop. At every saved step: the stored history energy never decreases pointwise; for the two damage-based solvers the saved nodal damage never decreases; BoundConstrain keeps the damage within [previous damage, 1] (the bounded least-squares back end of C04); an all-zero load history leaves the damage at zero. On every visited strain state: sigma+ + sigma- = C:eps, psi+ + psi- = 1/2 eps:C:eps, all finite; on every visited strain and stress tensor the spectral projector P+ applied to the tensor equals the positive part given by numpy.linalg.eigh (1e-7 relative) and P+ + P- is the identity.",
     "NOT decided: the split and projector clauses as statements over ALL strain tensors (pure functions of the input): they are evaluated only on the tensors the simulated histories reach (which include zero, hydrostatic, uniaxial, equibiaxial and round-off-degenerate states in 2D and 3D); the 4th-order projector is checked through its action on the tensor it was built from, not as a derivative. One open finding (AT1 with a vanishing positive energy gives a singular damage system and NaN) is steered around in the random batch by a damage-free clamp and reproduced from its own replay file.",
     "deterministic simulation: seeded load/solve/save/rollback/fault histories, monotonicity oracles over the recorded history, ddmin-minimised replay files",
     "DESIGN.md section 5, C17",
 )
 check(
     "C18", "hyper",
-    "PARTIAL CLAIM - the discrete energy-balance clause and, on the visited states only, the Newton-system consistency clause. Seeded trajectories of free motion (clamped or free bodies; static preload and/or random initial velocity) under the midpoint scheme with the gonzalez stress, the adaptive quadrature stress (energyTol = 1e-10), fixed strain-path rules (1, 2, 3, 5 points: exactly conserving for Saint-Venant-Kirchhoff, whose dW/de is linear) and the pointwise stress (not conserving: consistency checks only), optionally with Kelvin-Voigt viscosity or an active fibre stress (non-conservative: consistency checks only), for NeoHookean, Mooney-Rivlin, Ciarlet-Geymonat, Saint-Venant-Kirchhoff and Holzapfel-Ogden (two fibre families, every term switched on) laws, step-size changes and density changes between steps (the energy constant is re-based at the change; the kinetic energy uses the first assembled mass scaled by the ratio of the densities, never a mass re-read from the simulation), Save_Iter / Set_Iter rollback and injected back-end failures inside a Newton iteration followed by a retry. Invariant after every step: |KE + W - E0| <= 1e-5 of the energy scale; a failed step leaves (u, v, a) untouched; rollback returns to the recorded energy. At trial states away from u_n along the trajectory: A = coefK K + coefC C + coefM M applied to a direction equals the central difference of the assembled residual (scheme, stress option and previous state included). On states of the trajectory: the internal force assembled by a brand-new static simulation, contracted with a random direction, equals the central difference of the total stored energy along it; the deformed body turned as a whole (x' = Q (X + u), random Q) has the same stored energy and internal forces turned by Q. At the reference state each run starts from: W = 0, zero internal force, the unloaded static solve does not move the body.",
+    "PARTIAL CLAIM - the discrete energy-balance clause and, on the visited states only, the Newton-system consistency clause. Seeded trajectories of free motion (clamped or free bodies; static preload and/or random initial velocity) under the midpoint scheme (two thirds of the runs; the others step newmark, hht or backward Euler with the consistency oracles only) with the gonzalez stress, the adaptive quadrature stress (energyTol = 1e-10), fixed strain-path rules (1, 2, 3, 5 points: exactly conserving for Saint-Venant-Kirchhoff, whose dW/de is linear) and the pointwise stress (not conserving: consistency checks only), optionally with Kelvin-Voigt viscosity or an active fibre stress (non-conservative: consistency checks only), for NeoHookean, Mooney-Rivlin, Ciarlet-Geymonat, Saint-Venant-Kirchhoff and Holzapfel-Ogden (two fibre families, every term switched on) laws, step-size changes and density changes between steps (the energy constant is re-based at the change; the kinetic energy uses the first assembled mass scaled by the ratio of the densities, never a mass re-read from the simulation), Save_Iter / Set_Iter rollback and injected back-end failures inside a Newton iteration followed by a retry. Invariant after every step: |KE + W - E0| <= 1e-5 of the energy scale; a failed step leaves (u, v, a) untouched; rollback returns to the recorded energy. At trial states away from u_n along the trajectory: A = coefK K + coefC C + coefM M applied to a direction equals the central difference of the assembled residual (scheme, stress option and previous state included). On states of the trajectory: the internal force assembled by a brand-new static simulation, contracted with a random direction, equals the central difference of the total stored energy along it; the deformed body turned as a whole (x' = Q (X + u), random Q) has the same stored energy and internal forces turned by Q. At the reference state each run starts from: W = 0, zero internal force, the unloaded static solve does not move the body.",
     "NOT decided: stress = dW/de, tangent = d(stress)/de, objectivity (pure); tangent/residual consistency is checked only for the assembled Newton system on visited states, not per operator over all inputs. Runs with a non-converging or inverted step are discarded and counted. The mass matrix is the one the simulation assembles.",
     "deterministic simulation: seeded dynamic trajectories with fault injection, conserved-quantity oracle, ddmin-minimised replay files",
     "DESIGN.md section 5, C18",
 )
 check(
     "C19", "mat",
-    "Seeded strain histories (increments, reversals, unloads, holds, direction changes; points of one element in different regimes) with commit / no-commit / repeat / retry-with-smaller-step call patterns on Behavior.Integrate for every accepted combination of yield surface (none, von Mises, Hill, Drucker-Prager), isotropic hardening (none, Linear, Voce, Swift), 0-2 kinematic components, rate law (none, Norton, Perzyna), 0-2 Maxwell branches, in 3D / plane strain / plane stress; a twin behaviour with solver='newton' in lock-step; Simulations.InElastic on a small mesh with injected back-end failures in the Newton loop, repeated Save_Iter without a solve (holds, checkpoints) and rollbacks. Oracles: stress inside the yield surface, accumulated plastic strain non-decreasing, traceless plastic strain (J2/Hill), dissipation sigma:deps - dpsi >= 0, algorithmic tangent = central difference of the returned stress away from kinks, both local solvers agree, sigma_zz = 0 in plane stress, exact linear elasticity without internal variables, Integrate is pure (committed state byte-identical, repeat calls identical), only Save_Iter advances the committed state, a Save_Iter without a solve since the last commit commits the very same history, committing a solved step never lowers the accumulated plastic strain, a failed-then-retried step equals the unfaulted one.",
-    "Admissibility / dissipation / tangent checks apply to rate-independent configurations; dissipation is skipped with Armstrong-Frederick recall. Points the code flags as non-converged are excluded and counted. Neutral-loading points (on the surface, not flowing) are excluded from tangent comparisons. Finite-difference steps are chosen above the solver tolerances.",
+    "Seeded strain histories (increments, reversals, unloads, holds, direction changes; points of one element in different regimes) with commit / no-commit / repeat / retry-with-smaller-step call patterns on Behavior.Integrate for every accepted combination of yield surface (none, von Mises, Hill, Drucker-Prager), isotropic hardening (none, Linear, Voce, Swift), 0-2 kinematic components, rate law (none, Norton, Perzyna), 0-2 Maxwell branches, in 3D / plane strain / plane stress; a twin behaviour with solver='newton' in lock-step; Simulations.InElastic on a small mesh with injected back-end failures in the Newton loop, repeated Save_Iter without a solve (holds, checkpoints) and rollbacks. Oracles: stress inside the yield surface, accumulated plastic strain non-decreasing, traceless plastic strain (J2/Hill), dissipation sigma:deps - dpsi >= 0, algorithmic tangent = central difference of the returned stress away from kinks (rate laws and Maxwell branches included, at the dt of the step, with the difference step refined twice when the first quotient disagrees), both local solvers agree, sigma_zz = 0 in plane stress, exact linear elasticity without internal variables, Integrate is pure (committed state byte-identical, repeat calls identical), only Save_Iter advances the committed state, a Save_Iter without a solve since the last commit commits the very same history, committing a solved step never lowers the accumulated plastic strain, a failed-then-retried step equals the unfaulted one.",
+    "Admissibility / dissipation checks apply to rate-independent configurations (the tangent check to all); dissipation is skipped with Armstrong-Frederick recall. Points the code flags as non-converged are excluded and counted. Neutral-loading points (on the surface, not flowing) are excluded from tangent comparisons. Finite-difference steps are chosen above the solver tolerances.",
     "deterministic simulation: seeded strain/commit/fault histories with invariant and purity oracles, ddmin-minimised replay files",
     "DESIGN.md section 5, C19",
 )
